@@ -48,6 +48,7 @@ class RogueH2:
         if enable_push is not None:
             self.tx.update_settings({h2.settings.SettingCodes.ENABLE_PUSH: int(enable_push)})
         self.promises: List[dict] = []               # every PUSH_PROMISE: parent stream, promised stream, request header list
+        self.heads: Dict[int, List[list]] = {}       # per stream: every HEADERS block as [END_STREAM, header list]
         self.ack_settings = ack_settings
         self._extra = b""
         self.buf = b""
@@ -116,6 +117,7 @@ class RogueH2:
                 elif "END_HEADERS" in f.flags:
                     hs = self.dec.decode(self._hdr[1], raw=True)
                     s = self._st(self._hdr[0])
+                    self.heads.setdefault(int(self._hdr[0]), []).append([bool(self._hdr[2]), [[bytes(n), bytes(v)] for n, v in hs]])
                     for n, v in hs:
                         if n == b":status":
                             s["status"] = int(v)
